@@ -244,6 +244,8 @@ def run(chk):
         sig = {'module': 'Datatypes', 'kind': dt['k'], 'clause': clause, 'got': _got(root)}
         # structural fact about the type (not a verdict): is the JSON form of a leaf value its internal form?
         sig['wire_form'] = 'differs-from-internal' if dt['k'] in ('enum', 'blob', 'scaled') else 'as-internal'
+        if dc.has_blob0(dt):        # structural fact: the type holds a blob type with maxbytes 0
+            sig['has_blob_maxbytes_0'] = 'yes'
         if dt['k'] == 'tuple':
             sig['arity'] = 'one' if len(dt['els']) == 1 else 'many'
         if dt['k'] == 'string':
